@@ -45,6 +45,8 @@ type Shared struct {
 	lazyMemo    map[string]StoreEntry
 	reachWanted map[string]int
 	reachSat    map[string]bool
+	divMemo     map[string][2]string // (numerator|denominator) -> names of quotient and remainder
+	reachLater  map[string][]*State // paths that reached a label after the first witness attempts were in flight (tried later if those fail)
 	pending     []*FinalQuery
 	notes       map[string]bool
 	stubs       map[string]bool
@@ -90,6 +92,7 @@ type Exec struct {
 	finishFn      func(outcome)
 	pendingForks  []*State
 	mergeBase     []string
+	mergeMark     int // object ids above this were allocated inside the region being merged
 	nameSink      *[]string // during a state merge: definitions of names given to large merged terms
 }
 
